@@ -40,7 +40,7 @@ impl Scenario for EofScenario {
     }
     fn runs(&self, tier: &str) -> u64 {
         if tier == "quick" {
-            300_000
+            700_000
         } else {
             30_000_000
         }
